@@ -45,6 +45,7 @@ Lemma scaled0_R (x : f32) : IZR (scaled0 x) = B2R x * bpow radix2 149.
 Proof.
   destruct x as [s|s| |s m e H]; unfold scaled0; cbn [fin_scaled B2R]; try (simpl; ring).
   pose proof (bounded_emin m e H) as He.
+  rewrite Z.shiftl_mul_pow2 by lia.
   rewrite mult_IZR. rewrite (IZR_Zpower radix2) by lia.
   unfold F2R. cbn [Fnum Fexp]. rewrite bpow_plus. ring.
 Qed.
@@ -129,12 +130,33 @@ Qed.
 Lemma passes_worse a b : passes (worse a b) = true -> passes a = true /\ passes b = true.
 Proof. destruct a, b; simpl; auto; discriminate. Qed.
 
+Lemma tl_skipn {A} (l : list A) i : tl (skipn i l) = skipn (S i) l.
+Proof.
+  revert l. induction i as [|i IH]; intros l.
+  - destruct l; reflexivity.
+  - destruct l as [|x l]; [reflexivity|]. cbn [skipn]. rewrite IH. reflexivity.
+Qed.
+
+Lemma nth_skipn' {A} (l : list A) n i d : nth i (skipn n l) d = nth (n + i) l d.
+Proof.
+  revert l. induction n as [|n IH]; intros [|x r]; cbn [skipn Nat.add nth]; auto.
+  destruct i; reflexivity.
+Qed.
+
+Lemma f32_terms_skipn N pssm s i : f32_terms N pssm (skipn i s) 0 = f32_terms N pssm s i.
+Proof.
+  unfold f32_terms, score_terms. generalize 0%nat at 1 3. revert i.
+  induction pssm as [|prow rest IH]; intros i j; cbn [terms_from]; auto.
+  rewrite nth_skipn'. cbn [Nat.add]. rewrite IH. reflexivity.
+Qed.
+
 Lemma check_values_from_sound N pssm s : forall vals i0,
-  passes (check_values_from N pssm s i0 vals) = true ->
+  passes (check_values_from N pssm (skipn i0 s) vals) = true ->
   forall i, (i < length vals)%nat -> Holds_value (f32_terms N pssm s (i0 + i)) (nth i vals F32.nan).
 Proof.
   induction vals as [|v r IH]; intros i0 H i Hi; cbn [length] in Hi; [lia|].
   cbn [check_values_from] in H. apply passes_worse in H. destruct H as [H1 H2].
+  rewrite f32_terms_skipn in H1. rewrite tl_skipn in H2.
   destruct i as [|i].
   - rewrite Nat.add_0_r. cbn [nth]. eapply check_value_sound. exact H1.
   - cbn [nth]. replace (i0 + S i)%nat with (S i0 + i)%nat by lia. apply IH; auto. lia.
@@ -272,10 +294,10 @@ Qed.
 Lemma check_values_from_model N pssm s :
   (Z.of_nat (length pssm) <= 2 ^ 23)%Z ->
   forall n i0,
-    check_values_from N pssm s i0 (map (score_def F32.add F32.zero N pssm s) (seq i0 n)) = VExact.
+    check_values_from N pssm (skipn i0 s) (map (score_def F32.add F32.zero N pssm s) (seq i0 n)) = VExact.
 Proof.
   intros HM. induction n as [|n IH]; intros i0; cbn [seq map check_values_from]; auto.
-  rewrite IH.
+  rewrite tl_skipn, IH. rewrite f32_terms_skipn.
   change (score_def F32.add F32.zero N pssm s i0) with (f32_sum (f32_terms N pssm s i0)).
   rewrite defined_sum_passes; auto.
   unfold f32_terms, score_terms.
@@ -290,5 +312,5 @@ Theorem model_passes_C01 N pssm s :
   check_C01 N pssm s (map (score_def F32.add F32.zero N pssm s) (seq 0 (length s + 1 - length pssm))) = true.
 Proof.
   intros HM. unfold check_C01, check_values. rewrite map_length, seq_length, Nat.eqb_refl.
-  rewrite check_values_from_model; auto.
+  rewrite (check_values_from_model N pssm s HM _ 0); auto.
 Qed.
